@@ -130,7 +130,7 @@ class Software:
         if full:
             patch = self.patch or ''
             if self.product == Product.OpenSSH:
-                mx = re.match(r'^(p\d)(.*)$', patch)
+                mx = re.match(r'^(p\d+)(.*)$', patch)
                 if mx is not None:
                     r += mx.group(1)
                     patch = mx.group(2).strip()
